@@ -64,6 +64,26 @@ theorem scan_cons_leaf {recs : List Rec3} {dl : Nat} {r : Rec3} {rest : List Rec
   · rename_i h1
     exact ⟨by simp only; omega, h⟩
 
+theorem scan_node_intro {recs : List Rec3} {dl a b s : Nat} {rest : List Rec3} {i next : Nat}
+    (hc : i = 0 ∨ s ≠ 0) (h1 : next ≤ a) (h2 : i < a) (h3 : a + b ≤ recs.length)
+    (h4 : zeroInside recs a b = false) (h5 : scan recs dl rest (i + 1) (a + b) = true) :
+    scan recs dl ((a, b, s) :: rest) i next = true := by
+  have hc' : (i == 0 || s != 0) = true := by
+    rcases hc with h0 | h0
+    · simp [h0]
+    · simp [h0]
+  have hc1 : (decide (a < next) || decide (a ≤ i) || decide (recs.length < a + b)) = false := by
+    simp only [Bool.or_eq_false_iff, decide_eq_false_iff_not]
+    omega
+  simp only [scan, hc', if_true, hc1, h4, Bool.false_eq_true, if_false, h5]
+
+theorem scan_leaf_intro {recs : List Rec3} {dl a b : Nat} {rest : List Rec3} {i next : Nat}
+    (hc : i ≠ 0) (h1 : a + b ≤ dl) (h5 : scan recs dl rest (i + 1) next = true) :
+    scan recs dl ((a, b, 0) :: rest) i next = true := by
+  have hc' : (i == 0 || (0 : Nat) != 0) = false := by simp [hc]
+  have hc1 : ¬ dl < a + b := by omega
+  simp only [scan, hc', hc1, Bool.false_eq_true, if_false, h5]
+
 instance (i : Nat) (r : Rec3) : Decidable (IsNode i r) := by unfold IsNode; exact inferInstance
 
 /-- `next` only grows -/
